@@ -662,11 +662,128 @@ async fn replace_case(rep: &mut Report, tr: Transport, router_connects: bool, pe
   let _ = tokio::time::timeout(Duration::from_secs(10), ctx2.term()).await;
 }
 
+/// (order) per-connection order at a ROUTER whose peers talk before they are known: waves of raw DEALER peers, each
+/// writing its whole transcript - greeting, READY with its identity, and five numbered messages - in ONE write, so the
+/// messages are queued at the ROUTER before the peer's identity has been applied. Read with RCVTIMEO 0 / 1 ms /
+/// blocking: every peer's messages must come out in the order they were written, under its announced identity.
+async fn order_case(rep: &mut Report, tr: Transport, rcvtimeo: i32, wave: usize, waves: usize) {
+  use vh::rawpeer::RawStream;
+  use vh::refzmtp;
+  let ctx = util::new_ctx();
+  let router = ctx.socket(SocketType::Router).unwrap();
+  util::set_i32(&router, opt::RCVTIMEO, rcvtimeo).await;
+  let ep = match util::bind_fresh(&router, tr).await {
+    Ok(e) => e,
+    Err(e) => {
+      rep.inconclusive(format!("bind: {e}"));
+      return;
+    }
+  };
+  let per_peer = 5usize;
+  let total = wave * waves * per_peer;
+  let r2 = router.clone();
+  let reader = tokio::spawn(async move {
+    let mut seen: Vec<(Vec<u8>, Vec<u8>)> = vec![];
+    let t0 = std::time::Instant::now();
+    while seen.len() < total && t0.elapsed() < util::scaled(Duration::from_secs(25)) {
+      match r2.recv_multipart().await {
+        Ok(m) => {
+          let v = to_vecs(m);
+          if v.len() >= 2 {
+            seen.push((v[0].clone(), v[v.len() - 1].clone()));
+          }
+        }
+        Err(_) => tokio::task::yield_now().await,
+      }
+    }
+    seen
+  });
+  let mut raws = vec![];
+  for w in 0..waves {
+    let mut hs = vec![];
+    for k in 0..wave {
+      let ep2 = ep.clone();
+      let name = format!("raw-{:02}-{:02}", w, k).into_bytes();
+      hs.push(tokio::spawn(async move {
+        let mut r = RawStream::connect(&ep2).await.ok()?;
+        let mut t = refzmtp::null_client_handshake("DEALER", Some(&name));
+        for i in 0..5u8 {
+          let body = [&name[..], &b"#"[..], &[b'0' + i][..]].concat();
+          t.extend(refzmtp::message(&[b"", &body]));
+        }
+        r.write_all(&t).await.ok()?;
+        Some(r)
+      }));
+    }
+    for h in hs {
+      if let Ok(Some(r)) = h.await {
+        raws.push(r);
+      }
+    }
+    tokio::time::sleep(Duration::from_millis(30)).await;
+  }
+  let seen = tokio::time::timeout(util::scaled(Duration::from_secs(30)), reader).await.ok().and_then(|x| x.ok()).unwrap_or_default();
+  drop(raws);
+  let mode = if rcvtimeo == 0 { "rcvtimeo=0" } else if rcvtimeo < 0 { "blocking" } else { "timed" };
+  rep.case(&("order", tr, rcvtimeo, wave, waves, seen.len()), true);
+  rep.count("order_messages_observed", seen.len() as u64);
+  if seen.len() < total / 2 {
+    rep.inconclusive(format!("order case: only {} of {} messages observed over {} ({})", seen.len(), total, tr.name(), mode));
+  }
+  // per peer (named by the payload): sequence numbers ascending, identity frame == announced identity
+  let mut last: HashMap<Vec<u8>, u8> = HashMap::new();
+  let mut first_bad: Option<String> = None;
+  let mut reordered = 0usize;
+  let mut wrong_id = 0usize;
+  for (id, payload) in &seen {
+    let Some(pos) = payload.iter().position(|b| *b == b'#') else { continue };
+    let (name, seq) = (payload[..pos].to_vec(), payload[pos + 1]);
+    if id != &name {
+      wrong_id += 1;
+      first_bad.get_or_insert(format!("message {:?} arrived under identity {:?}", String::from_utf8_lossy(payload), String::from_utf8_lossy(id)));
+    }
+    if let Some(prev) = last.get(&name) {
+      if seq <= *prev {
+        reordered += 1;
+        first_bad.get_or_insert(format!("peer {:?}: message #{} delivered after #{}", String::from_utf8_lossy(&name), seq as char, *prev as char));
+      }
+    }
+    last.insert(name, seq);
+  }
+  if reordered > 0 {
+    rep.violation(format!("per_connection_order_broken_at_router|{}", mode), format!("{} of {} messages out of order ({} raw peers per wave over {}, RCVTIMEO {}): {}", reordered, seen.len(), wave, tr.name(), rcvtimeo, first_bad.clone().unwrap_or_default()), json!({"transport": tr.name(), "rcvtimeo": rcvtimeo, "wave": wave}));
+  }
+  if wrong_id > 0 {
+    rep.violation(format!("placeholder_or_foreign_identity_reported|pipelined_first_messages|{}", mode), format!("{} of {} messages under another identity than the announced one: {}", wrong_id, seen.len(), first_bad.unwrap_or_default()), json!({"transport": tr.name(), "rcvtimeo": rcvtimeo}));
+  }
+  let _ = tokio::time::timeout(Duration::from_secs(12), ctx.term()).await;
+}
+
 fn main() {
   let args = Args::parse();
   util::install_panic_watch();
   let mut rep = Report::new("C11", &args.shard_name());
   let mut rng = Rng::new(args.seed.wrapping_mul(236887691).wrapping_add(args.shard as u64));
+  if args.only.as_deref() == Some("order") {
+    let rt = util::runtime(4);
+    let n = if args.thorough() { 24 } else { 8 };
+    for i in 0..n {
+      if !args.mine(i) {
+        continue;
+      }
+      let tr = [Transport::Tcp, Transport::Ipc][i % 2];
+      let rcvtimeo = [0, -1, 1, 0][i % 4];
+      // seeded delays at the ready-pipe-queue schedule points (between the individual pops) widen the window in which a
+      // peer's identity is applied between two pops of its messages
+      rzmq::verif::set_perturbation((args.seed.wrapping_mul(7919) + i as u64) | 1);
+      util::guarded(&rt, order_case(&mut rep, tr, rcvtimeo, if i % 3 == 0 { 32 } else { 12 }, if args.thorough() { 10 } else { 6 }));
+      rzmq::verif::set_perturbation(0);
+    }
+    util::cleanup_ipc_dir();
+    rep.merge_hooks();
+    rep.emit();
+    return;
+  }
   if args.only.as_deref() == Some("replace") {
     let rt = util::runtime(2);
     let mut i = 0;
